@@ -614,7 +614,7 @@ def r5_wrappers(ctx):
             for o in an.rets:
                 t = an.ip.to_term(o.state, o.value)
                 okw = okw and (t[0] == 'call' and t[1].endswith('LocalKey::<T>::with') and t[2][1][0] == 'closure' and t[2][1][1] == clo.path and
-                               t[2][1][2] == tuple(A(i) for i in range(nargs)) and refers_to_manager(cr, t[2][0]) and
+                               len(t[2][1][2]) == nargs and all(x in (A(i), ('items', A(i))) for i, x in enumerate(t[2][1][2])) and refers_to_manager(cr, t[2][0]) and
                                len([c for c in o.state.calls if not c[0].endswith('LocalKey::<T>::with')]) == 0)
             # closure body: method on the borrowed manager with the captured arguments in order
             an2 = analyse(ctx, cfg, clo.path, [], uninterpreted=lambda p: True)
@@ -627,5 +627,12 @@ def r5_wrappers(ctx):
                     ups = tuple(('fld', env, str(i)) for i in range(nargs))
                     okc = args[0] == cell and tuple(args[1:]) == ups
             ok = okw and okc
+            # no caller-supplied code may run while the manager's RefCell is mutably borrowed: a lazily evaluated iterator
+            # argument (`impl IntoIterator`) that calls another wrapper would panic with "already borrowed", so it has to
+            # be collected before MANAGER.with and the closure must capture the collected vector
+            lazy = [u for u in clo.upvars if u.startswith('impl ') or u.startswith('&impl ') or (len(u) == 1 and u.isupper())]
+            okl = not lazy
+            ctx.obligation(okl)
+            (ctx.ok if okl else ctx.violation)('C01.R5', 'C01.R5/wrapper:%s/no-caller-code-runs-while-the-manager-is-borrowed' % w, SRE + w, fn.site(), {'captured_types': clo.upvars, 'lazy': lazy}, cfg)
             ctx.obligation(ok)
             (ctx.ok if ok else ctx.violation)('C01.R5', 'C01.R5/wrapper:%s/calls-%s-with-arguments-in-order' % (w, method), SRE + w, fn.site(), {'wrapper_ok': okw, 'closure_ok': okc}, cfg)
